@@ -19,7 +19,7 @@ RULE = (
     "(several nodes per host); externally provisioned or not; preserve-install on/off; race known to the race store or not; remote "
     "daemons already registered or joining at {0, 0.5, 3, 9} s in any order, optionally an unrelated daemon; per-message delays from "
     "{0, 1/1024, 0.25, 2, 7} s; zero or one fault: the launcher of the k-th host raises, or a remote daemon leaves the convention at "
-    "{0.25, 1, 4, 9.5, 12} s during start-up. Non-trivial = >= 2 hosts with >= 1 remote and acknowledgements (NodesStarted) arriving in "
+    "{0.25, 1, 4, 9.5, 12} s during start-up; or (no failure) a remote daemon goes away 0-2 s after all node mechanics of its machine have confirmed the stop. Non-trivial = >= 2 hosts with >= 1 remote and acknowledgements (NodesStarted) arriving in "
     "an order different from the order in which StartNodes was sent, or a fault that fired. Distinct = distinct canonical JSON."
 )
 ASSUMPTIONS = [
